@@ -352,6 +352,18 @@ fn run(s: &Scenario, dir: &Path) -> Result<(), String> {
     );
     let stdout = String::from_utf8_lossy(&out.stdout).to_string();
     let stderr = String::from_utf8_lossy(&out.stderr).to_string();
+    if input_ok && output_ok && s.output == OutputKind::SameAsInput && code == Some(1) {
+        // refusing to overwrite one's own input is a safety feature the statement does not rule out: it must then be a
+        // clean failure (diagnostic, nothing on stdout, the file untouched)
+        if !stdout.is_empty() || stderr.trim().is_empty() {
+            return Err("input and output are the same file: the run failed, but not cleanly (stdout not empty or no diagnostic)".into());
+        }
+        let now = std::fs::read(&input_path).map_err(|e| format!("the input file vanished: {}", e))?;
+        if now != s.input {
+            return Err("input and output are the same file: the run failed but the file was modified".into());
+        }
+        return Ok(());
+    }
     if input_ok && output_ok {
         let expected = format!("{}{}", HEADER, lib.as_ref().unwrap());
         if code != Some(0) {
@@ -374,13 +386,13 @@ fn run(s: &Scenario, dir: &Path) -> Result<(), String> {
                 if got != expected.as_bytes() {
                     return Err(format!("output file is not header + library rendering:\n--- expected\n{}\n--- got\n{}", expected, String::from_utf8_lossy(&got)));
                 }
-                if matches!(s.output, OutputKind::DanglingSymlink | OutputKind::SymlinkToExisting) {
-                    if !is_link(p) {
-                        return Err("the output path was a symbolic link and has been replaced by a regular file".into());
-                    }
-                    let through = std::fs::read(&link_target).map_err(|e| format!("the link's target was not written: {}", e))?;
+                // a symbolic link as output path: the statement only says that the named path holds the output afterwards
+                // (checked above by reading through it); whether the program writes through the link or replaces it by a
+                // regular file (as an atomic temp-file-and-rename write does) is left open
+                if matches!(s.output, OutputKind::DanglingSymlink | OutputKind::SymlinkToExisting) && is_link(p) {
+                    let through = std::fs::read(&link_target).map_err(|e| format!("the output link was kept but its target was not written: {}", e))?;
                     if through != expected.as_bytes() {
-                        return Err("the link's target does not hold header + library rendering".into());
+                        return Err("the output link was kept but its target does not hold header + library rendering".into());
                     }
                 }
                 if s.rerun && s.output != OutputKind::SameAsInput {
@@ -582,7 +594,7 @@ impl Property for C12 {
         Err(Failure::new(format!("no boundary scenario is labelled `{}`", label)))
     }
     fn rule(&self) -> String {
-        "output paths also as a symbolic link (dangling, or to an existing file: written through, the link kept; untouched when the input is at fault) and as the input file itself; a fixed buffer-boundary family (inputs with a 2-, 3- or 4-byte character starting 0..len bytes before offsets 4096, 8192, 16384, 24576, 32768, 65536; inputs whose output has exactly 4096/8192/16384 bytes, one or two less, one more; stdout, new file, existing file); sampled: one process run of the freshly built CLI per case: input file in {generated valid document, byte-damaged UTF-8 document, non-UTF-8, missing, a directory, element-less} x --parser/-p in {default, quick-xml-de, serde-xml-rs} x --derive=<string from a list incl. empty, leading dashes, unicode, newline, shell metacharacters> or default x --sort in {default, unsorted, name} x output in {stdout, new file, existing file (empty, short, 15 KB and thus longer than the new output, or garbage of exactly the new output's length), path in a missing directory, path that is a directory, path below a regular file}, options before or after the positional arguments, written as `--opt=value`, `--opt value` or `-o value`, file names plain or with blanks and non-ASCII characters. Four in ten successful file outputs are followed by a second run into the same file with the other sort order and a permuted derive list (often the same output length). Oracle: success = exit 0 and stdout (plus newline) or file bytes equal header + in-process library rendering with the mapped options, stdout empty when a file is named; failure = exit 1, empty stdout, non-empty stderr, named output untouched when the input was at fault. Non-trivial = any non-default option, an output file or a fault; distinct by hash of input bytes and arguments.".into()
+        "output paths also as a symbolic link (dangling, or to an existing file: the path must hold the output afterwards, written through or replaced; link and target untouched when the input is at fault) and as the input file itself (overwritten, or refused cleanly); a fixed buffer-boundary family (inputs with a 2-, 3- or 4-byte character starting 0..len bytes before offsets 4096, 8192, 16384, 24576, 32768, 65536; inputs whose output has exactly 4096/8192/16384 bytes, one or two less, one more; stdout, new file, existing file); sampled: one process run of the freshly built CLI per case: input file in {generated valid document, byte-damaged UTF-8 document, non-UTF-8, missing, a directory, element-less} x --parser/-p in {default, quick-xml-de, serde-xml-rs} x --derive=<string from a list incl. empty, leading dashes, unicode, newline, shell metacharacters> or default x --sort in {default, unsorted, name} x output in {stdout, new file, existing file (empty, short, 15 KB and thus longer than the new output, or garbage of exactly the new output's length), path in a missing directory, path that is a directory, path below a regular file}, options before or after the positional arguments, written as `--opt=value`, `--opt value` or `-o value`, file names plain or with blanks and non-ASCII characters. Four in ten successful file outputs are followed by a second run into the same file with the other sort order and a permuted derive list (often the same output length). Oracle: success = exit 0 and stdout (plus newline) or file bytes equal header + in-process library rendering with the mapped options, stdout empty when a file is named; failure = exit 1, empty stdout, non-empty stderr, named output untouched when the input was at fault. Non-trivial = any non-default option, an output file or a fault; distinct by hash of input bytes and arguments.".into()
     }
     fn assumptions(&self) -> Vec<String> {
         vec![
